@@ -45,6 +45,9 @@ def pool():
     add("priv", 'strings: $a = "bcde" condition: $a', priv=True)
     add("ref_abcd", 'condition: abcd and filesize > 4', deps=("abcd",))
     add("ref_priv", 'condition: priv or fsize', deps=("priv", "fsize"))
+    add("re_dot4", 'strings: $a = /ab.{4}cd/ condition: $a')            # bounded dot repeats: the regexp VM's fibers are pooled per scanner and recycled across strings
+    add("re_rng", 'strings: $a = /ef.{1,6}gh/ condition: $a')
+    add("re_dot2", 'strings: $a = /xy.{2}zw/ condition: $a')
     add("ofset", 'strings: $a1 = "abcd" $a2 = "qq" $b = "yz" condition: 2 of ($a*, $b)')
     # wildcard rule sets: only rules of ITS namespace defined before it count (prefix used by no other pool rule, so the set of referenced rules is the declared deps)
     add("pk_a", 'strings: $a = "abcde" condition: $a')
@@ -59,7 +62,7 @@ def pool():
 def buffers():
     return [b"", b"abcd", b"abcde", b"xabcde", b"abcdxyz", b"xabcdxyz", b"bcqq abcdxyz", b"abcbcqq", b"abcdabcd", b" abcd ", b"zabcdz", b"ABCD aBcD", b"a\0b\0c\0d\0",
             b"bc bc bcd", b"bcXe b123e be", b"abcd" + b"." * 203 + b"dxyz", b"abcd" + b"." * 206 + b"dxyz", bytes(c ^ 0x33 for c in b"--abcd--"), yv.blob("PE32_FILE"), b"cdxyabcqq yz qq",
-            b"abcabcdabcde", b"bcdebcqqdxyz", b"xabcqq", b"dxyabcdxyz"]
+            b"abcabcdabcde", b"bcdebcqqdxyz", b"xabcqq", b"dxyabcdxyz", b"ab\n xy12zw", b"ef1\n xy1zw", b"ab12\n34cd ef1\n xy12zw xy1zw", b"xy12zw ab\n"]
 
 
 def rule_src(r, name=None):
